@@ -96,11 +96,20 @@ def build_samples(spec, cols):
     return s
 
 
-def compare_read(path, spec, model_rows, fits=False):
+def compare_read(path, spec, model_rows, fits=False, via=None):
     """Return None or (key, msg)."""
     import astropy.units as u
     from thejoker import JokerSamples
-    back = JokerSamples.read(path)
+    if via == "h5py":
+        import h5py
+        with h5py.File(path, "r") as fh:
+            back = JokerSamples.read(fh)
+    elif via == "tables":
+        import tables as tb
+        with tb.open_file(path, mode="r") as fh:
+            back = JokerSamples.read(fh.root)
+    else:
+        back = JokerSamples.read(path)
     if back.par_names != spec.names:
         return ("read-columns", "columns %r, model %r" % (back.par_names, spec.names))
     n = sum(len(next(iter(r.values()))) for r in model_rows)
@@ -271,7 +280,13 @@ def run(ctx):
                 elif op == "append-ok":
                     n = int(rng.choice([1, 2, 7, 300]))
                     cols = make_rows(spec, n, rng)
-                    build_samples(spec, cols).write(path, append=True)
+                    if rng.random() < 0.3:
+                        import h5py
+                        with h5py.File(path, "a") as fh:            # through an open handle instead of a file name
+                            build_samples(spec, cols).write(fh, append=True)
+                        op = "append-ok-handle"
+                    else:
+                        build_samples(spec, cols).write(path, append=True)
                     rows.append(cols)
                     outcome = "accepted"
                 elif op == "append-bad":
@@ -321,8 +336,15 @@ def run(ctx):
                         s2.dtype = np.float32 if spec.dtype == np.float64 else np.float64
                     cols = make_rows(s2, int(rng.choice([1, 3, 50])), rng)
                     h0 = sha(path)
+                    via_handle = bool(rng.random() < 0.3)
+                    desc["via_open_handle"] = via_handle
                     try:
-                        build_samples(s2, cols).write(path, append=True)
+                        if via_handle:
+                            import h5py
+                            with h5py.File(path, "a") as fh:
+                                build_samples(s2, cols).write(fh, append=True)
+                        else:
+                            build_samples(s2, cols).write(path, append=True)
                         outcome = "accepted"
                     except Exception:
                         outcome = "refused"
@@ -350,7 +372,13 @@ def run(ctx):
                 hist.append((op, outcome))
                 ctx.distinct.add(repr((op, outcome, shape_cls)))
                 # after every step the file must equal the model
-                bad = compare_read(path, spec, rows)
+                via = None
+                if op == "read":
+                    # (a pytables Group is also accepted by read() but fails loudly here: pytables cannot read the
+                    #  variable-length-string header h5py writes; documented inputs are str / h5py.File / h5py.Group)
+                    via = [None, "h5py"][int(rng.integers(0, 2))]
+                    ctx.distinct.add(repr(("read-via", via)))
+                bad = compare_read(path, spec, rows, via=via)
                 ctx.evaluations += 1
                 if bad:
                     ctx.violation(bad[0], "after %s: %s" % (op, bad[1]), desc)
